@@ -367,6 +367,9 @@ class Repo:
                 self.modules[modname] = m
                 self.by_relpath[rel] = m
         self._resolve_bases()
+        self.inlined = []
+        from . import inline as _inline
+        _inline.apply(self)
 
     # -- lookup -----------------------------------------------------------
     def module(self, relpath):
@@ -414,9 +417,13 @@ class Repo:
         for m in self.modules.values():
             yield from m.classes.values()
 
-    def all_functions(self):
+    def all_functions(self, include_absorbed=False):
+        """Every function of the package. Helpers that did not exist on the reference tree and whose every call was inlined into
+        the callers (sa/inline.py) are skipped unless asked for: the callers show their code."""
         for m in self.modules.values():
-            yield from m.all_functions
+            for f in m.all_functions:
+                if include_absorbed or not getattr(f, 'absorbed', False):
+                    yield f
 
     def subclasses(self, cls):
         return [c for c in self.all_classes() if c is not cls and cls in c.mro()]
